@@ -77,7 +77,7 @@ class GFamily:
 
 def run_batches(fam, report, batches, invariants, properties, log=print, crosscheck_per_dut=40,
                 stallbound_factor=1, max_violations_per_batch=6, tlc_timeout=3000, spec_budget=60000,
-                heap="12g"):
+                heap="12g", followup=True, total_budget=900000):
     """batches: list of lists of (spec, cfg).  Fills `report`.  Returns list of per-DUT stats."""
     all_stats = []
     queue = [(list(b), list(invariants), list(properties)) for b in batches]
@@ -91,7 +91,8 @@ def run_batches(fam, report, batches, invariants, properties, log=print, crossch
             log("batch %d (%d more queued): %d DUT(s)" % (bi, len(queue), len(remaining)))
             gl = GraphLoop(fam.graph_module, fam.factory_path, remaining, invariants=invariants,
                            properties=properties, hint=fam.hint, spec_name=fam.spec_name, shim=fam.shim,
-                           log=log, tlc_timeout=tlc_timeout, spec_budget=spec_budget, heap=heap)
+                           log=log, tlc_timeout=tlc_timeout, spec_budget=spec_budget, heap=heap,
+                           total_budget=total_budget)
             try:
                 res = gl.run()
                 st = gl.stats()
@@ -149,7 +150,7 @@ def run_batches(fam, report, batches, invariants, properties, log=print, crossch
                                    "trace_module": fam.trace_module, "trace_invariants": tinv,
                                    "observed": ev[:2000], "clause": tclause}, text)
             nviol += 1
-            if not new:
+            if not new and (followup or spec.get("followup")):
                 # a listed known finding: the rest of this DUT's clauses are still explored,
                 # in a follow-up run without the clause that is known to fail
                 if clause == "temporal":
